@@ -44,6 +44,7 @@ Variable has_comma : bytes -> bool.                   (* COMMA in str *)
 Variable tolist : bool -> bytes -> list bytes.        (* tools.to_list(str, unquote) *)
 Variable is_bracket : bytes -> bool.                  (* str.startswith(bracket) *)
 Variable is_digits : bytes -> bool.                   (* str.isdigit() *)
+Variable render : list bytes -> bytes.                (* the text a list value is turned into first (see render_list) *)
 
 (* str methods applied to an argument value: a list or a Command object has none of them *)
 Definition v_str (v : aval) : rres bytes := match v with VStr s => ROk s | _ => RCrash end.
@@ -61,7 +62,7 @@ Definition render_list (l : list bytes) : bytes :=
   [91] ++ join [44] (map (fun i => [34] ++ i ++ [34]) l) ++ [93].
 
 Definition v_text (v : aval) : rres bytes :=
-  match v with VStr s => ROk s | VList l => ROk (render_list l) | _ => RCrash end.
+  match v with VStr s => ROk s | VList l => ROk (render l) | _ => RCrash end.
 
 (* value.startswith(bracket) ? tools.to_list(value) : [value.strip(DQUOTE)] *)
 Definition list_or_one (s : bytes) : list bytes :=
@@ -259,7 +260,7 @@ Definition std_tolist (unquote : bool) (s : bytes) : list bytes :=
 Definition std_is_bracket (s : bytes) : bool := starts_with [91] s.
 Definition all_digits (s : bytes) : bool := match s with [] => false | _ => forallb is_digit s end.
 
-Definition std_get_conditions := get_conditions strip_dq std_has_comma std_tolist std_is_bracket all_digits.
+Definition std_get_conditions := get_conditions strip_dq std_has_comma std_tolist std_is_bracket all_digits render_list.
 Definition std_get_actions := get_actions strip_dq std_has_comma std_tolist.
 
 (* FiltersSet.getfilter on the sets of Build.v: the tree of the named filter, the wrapped one when disabled *)
